@@ -56,6 +56,14 @@ def check(ck):
                 for c in node_calls(n):
                     if isinstance(c.func, ast.Attribute) and dump(c.func.value) == "self" and len(c.args) == 2:
                         sinks.append((n, c.args[1]))
+        if len(sinks) == 1 and isinstance(sinks[0][1], ast.Name):
+            # the forwarded collection chosen in two branches (`params = args` / `params = kwargs`) and sent once: each choice
+            # is examined where it is made
+            ds_ = prov.rd_of(g).get(sinks[0][0].id, {}).get(sinks[0][1].id, frozenset())
+            dn_ = [g.nodes[i] for i in ds_]
+            if len(dn_) >= 2 and all(x.kind == "stmt" and isinstance(x.ast, ast.Assign) and len(x.ast.targets) == 1 and
+                                     isinstance(x.ast.targets[0], ast.Name) for x in dn_):
+                sinks = [(x, x.ast.value) for x in dn_]
         if len(sinks) == 1:
             # one site forwarding `args if args else kwargs` / `args or kwargs` (or the mirrored forms)
             n1_, e1_ = sinks[0]
@@ -519,11 +527,11 @@ def check(ck):
     joined = None
     for n in gm.live_nodes():
         for c in node_calls(n):
-            if isinstance(c.func, ast.Attribute) and c.func.attr == "join" and c.args and isinstance(c.args[0], (ast.GeneratorExp, ast.ListComp)):
-                comp = c.args[0]
-                gen = comp.generators[0]
-                okk = len(comp.generators) == 1 and not gen.ifs and dump(gen.iter) == "self._job_list" and \
-                    isinstance(comp.elt, ast.Call) and dump(comp.elt.func) == "%s.request" % dump(gen.target) and \
+            ms_ = q.mapped_sequence(gm, n, c.args[0]) if isinstance(c.func, ast.Attribute) and c.func.attr == "join" and len(c.args) == 1 else None
+            if ms_ is not None:
+                it_, tg_, elt_ = ms_
+                okk = prov.origin(gm, n, it_) == ("attr", ("param", "self"), "_job_list") and \
+                    isinstance(elt_, ast.Call) and dump(elt_.func) == "%s.request" % dump(tg_) and not elt_.args and \
                     isinstance(c.func.value, ast.Constant) and c.func.value.value == ","
                 joined = n
                 ck.require(okk, "C01.6", "%s: `%s`" % (q.fn(fmc), dump(c)[:70]), "','.join(job.request() for job in self._job_list)",
